@@ -89,7 +89,19 @@ Theorem C19_positional_skipped_field_refuted : forall (is_utf8 : bytes -> bool),
   exists v tr, validator_skips v = true /\ ser_validator is_utf8 false v = Some tr /\ pos_bounds (flat tr) <> Some (v, []).
 Proof. exact pos_bounds_skipped_refuted. Qed.
 
+(** the same one level up: a claim schema whose validator list is non-empty and complete is read
+    back positionally; one whose (empty) list was skipped is not *)
+Theorem C19_positional_claim_schema_roundtrip : forall (is_utf8 : bytes -> bool) c tr r,
+  cs_validators c <> [] -> Forall simple_validator (cs_validators c) -> ctype_of_tag (ctype_tag (cs_type c)) = cs_type c ->
+  ser_claim_schema is_utf8 false c = Some tr -> pos_claim_schema (flat tr ++ r)%list = Some (c, r).
+Proof. exact pos_claim_schema_rt. Qed.
+Theorem C19_positional_claim_schema_skipped_refuted : forall (is_utf8 : bytes -> bool),
+  exists c tr, claim_schema_skips c = true /\ ser_claim_schema is_utf8 false c = Some tr /\ pos_claim_schema (flat tr) = None.
+Proof. exact pos_claim_schema_skipped_refuted. Qed.
+
 Print Assumptions C19_credential_schema_roundtrip.
+Print Assumptions C19_positional_claim_schema_roundtrip.
+Print Assumptions C19_positional_claim_schema_skipped_refuted.
 Print Assumptions C19_positional_skipped_field_refuted.
 
 Print Assumptions C19_ps_public_key_roundtrip.
